@@ -100,13 +100,21 @@ def _read(cid, rows, mode="yield", take=None, until=None, held=None, keep=False,
     out = []
     ended = None
     generator = cutplace.rows(cid, _stream(_text(rows)), on_error=mode, validate_until=until)
+    delivered = []
     try:
         for item in generator:
             out.append(_describe(item))
+            if isinstance(item, list):
+                delivered.append(item)
             if late_close_after is not None and len(out) == late_close_after:
                 _finalize(held)
             if take is not None and len(out) >= take:
                 break
+        else:
+            # what a complete reading delivered is what a later writing of the same table hands over: the very objects
+            if len(_DELIVERED) > 64:
+                _DELIVERED.clear()
+            _DELIVERED[_text(rows)] = delivered
     except Exception as error:
         ended = _describe(error)
     finally:
@@ -118,6 +126,9 @@ def _read(cid, rows, mode="yield", take=None, until=None, held=None, keep=False,
             except Exception as error:
                 ended = ["close-error"] + _describe(error)
     return {"items": out, "ended": ended}
+
+
+_DELIVERED = {}
 
 
 def _deferred_read(cid, rows, rows_between):
@@ -155,7 +166,7 @@ def _validate(cid, rows, until):
         return {"ended": _describe(error)}
 
 
-def _write(cid, rows, close, held=None, late_close_after=None):
+def _write(cid, rows, close, held=None, late_close_after=None, objects=None):
     target = io.StringIO()
     out = []
     ended = None
@@ -163,11 +174,13 @@ def _write(cid, rows, close, held=None, late_close_after=None):
         writer = cutplace.Writer(cid, target)
     except Exception as error:
         return {"items": [], "ended": ["construct"] + _describe(error), "text": ""}
-    for row in rows:
+    objects = objects if objects is not None else (_DELIVERED.get(_text(rows)) or [])
+    for index, row in enumerate(rows):
         if late_close_after is not None and len(out) == late_close_after:
             _finalize(held)
+        handed = objects[index] if index < len(objects) and objects[index] == list(row) else list(row)
         try:
-            writer.write_row(list(row))
+            writer.write_row(handed)
             out.append(["written", list(row)])
         except Exception as error:
             out.append(_describe(error))
@@ -402,8 +415,11 @@ def _generated_text(spec, rows, end):
 def _generated_op(cid, spec, tables, op, held):
     rows = tables[op["table"]]
     kind = op["kind"]
+    delivered_before = cid.__dict__.setdefault("_verif_delivered", {})
     if kind == "write":
-        return _write(cid, rows[spec["fmt"].get("header", 0):], op["close"])
+        # the rows an earlier complete reading of this table delivered are handed to the writer as the objects they are
+        return _write(cid, rows[spec["fmt"].get("header", 0):], op["close"],
+                      objects=delivered_before.get(op["table"], []))
     source = _stream(_generated_text(spec, rows, op["end"]))
     if kind == "validate":
         try:
@@ -423,11 +439,16 @@ def _generated_op(cid, spec, tables, op, held):
         return {"items": out, "ended": ended}
     out, ended = [], None
     generator = cutplace.rows(cid, source, on_error=op.get("mode", "yield"), validate_until=op.get("until"))
+    delivered = []
     try:
         for item in generator:
             out.append(_describe(item))
+            if isinstance(item, list):
+                delivered.append(item)
             if kind == "abandon" and len(out) >= op["take"]:
                 break
+        else:
+            delivered_before[op["table"]] = delivered
     except Exception as error:
         ended = _describe(error)
     finally:
